@@ -202,6 +202,8 @@ def _mk_call(sim, stacks, ev, res):
             ev2 = dict(ev, _state=(ca._device_address_state, ca._device_address), _t0=len(sim.trace))
             r = st.call(('ca_request', sim.now, ev['ca'], x[0], x[1], x[2]), lambda: ca.send_request(x[0], x[1], x[2]))
             res.returns.append((dict(ev2, _t1=len(sim.trace)), r))
+        elif op == 'ca_unsubscribe_request':
+            st.ca_unsubscribe_request(ev['ca'], ev['cid'])
         elif op == 'ca_subscribe':
             st.ca_subscribe(ev['ca'], st.cb(ev['cid'], 'sub'))       # a listener bound to the CA while the stack is running
         elif op == 'ca_start':
